@@ -426,6 +426,8 @@ def run(cx, tier='quick'):
     include_own_scanners(cx, facts, rep, ['::deref::', '::deref_mut::'])
     from .helpers import check_ident_or_index
     check_ident_or_index(cx, rep)
+    from .scope import check_scopes
+    check_scopes(cx, rep, ['::deref::', '::deref_mut::'])
     rep.floor('SUM-DEREF', 4)
     rep.floor('MODELS-OWN', 10)
     rep.floor('SEL', 4)
